@@ -3,6 +3,7 @@ import Flowjaxv.Proofs.Rqs
 import Flowjaxv.Proofs.Planar
 import Flowjaxv.Proofs.Triangular
 import Flowjaxv.Proofs.TriangularGen
+import Flowjaxv.Proofs.PermGen
 /-!
 # C07 — elementary bijections compute their documented functions
 
@@ -268,5 +269,64 @@ theorem gen_triangular_doc_instance :
   exact triangular_doc_instance
 
 end TriangularGen
+
+section PermGen
+/-! ## Permute REGENERATED (`Gen/PermGen.lean`, translator `py2perm.py`): `__init__` in exception-valued form (the
+`eqx.error_if(permutation, permutation.ravel().sort() != jnp.arange(permutation.size))` check, `jnp.unravel_index` index tuples,
+`inverse_permutation` from `jnp.argsort`) and the four methods, on n-d arrays (shape + row-major data). -/
+open PermPrims Gen.PermGen
+
+/-- **generated = hand model** `Model/Perm.lean`: for a permutation array of any rank ≥ 1 / any shape that the generated constructor
+accepts and every input of that shape, `x[self.permutation]` / `y[self.inverse_permutation]` are the flat model's `fwd` / `inv`, the
+results have the declared shape, and both log-dets are 0. -/
+theorem gen_permute_eq_model (p : IArr) (hwf : p.data.length = prod p.shape) (hne : p.shape ≠ []) {s : Permute}
+    (h : Permute.init p = .ok s) (x : FArr ℝ) (hx : x.shape = p.shape) :
+    (p.data.map Int.toNat).Perm (List.range (p.data.map Int.toNat).length) ∧ s.shape = p.shape ∧
+    (s.transform x).data = PermModel.fwd (p.data.map Int.toNat) x.data ∧ (s.transform x).shape = p.shape ∧
+    (s.inverse x).data = PermModel.inv (p.data.map Int.toNat) x.data ∧ (s.inverse x).shape = p.shape ∧
+    s.transform_and_log_det x = (s.transform x, 0) ∧ s.inverse_and_log_det x = (s.inverse x, 0) :=
+  PermGenPf.gen_permute_eq_model p hwf hne h x hx
+
+/-- `permute_doc` on the generated `transform`: on the flattened arrays `y[i] = x[perm[i]]`, every rank ≥ 1 -/
+theorem gen_permute_doc (p : IArr) (hwf : p.data.length = prod p.shape) (hne : p.shape ≠ []) {s : Permute}
+    (h : Permute.init p = .ok s) (x : FArr ℝ) (hx : x.shape = p.shape) (hxl : x.data.length = p.data.length)
+    (i : Nat) (hi : i < p.data.length) :
+    (s.transform x).data[i]? = x.data[(p.data.map Int.toNat)[i]'(by simpa using hi)]? := by
+  obtain ⟨hP, _, hf, _⟩ := gen_permute_eq_model p hwf hne h x hx
+  have hlt : (p.data.map Int.toNat)[i]'(by simpa using hi) < x.data.length := by
+    have := hP.mem_iff.mp (List.getElem_mem (l := p.data.map Int.toNat) (by simpa using hi))
+    rw [hxl]; simpa using this
+  have hlt' : (p.data[i]).toNat < x.data.length := by simpa using hlt
+  rw [hf]
+  simp [PermModel.fwd, List.getD_eq_getElem?_getD, List.getElem?_eq_getElem hi, List.getElem?_eq_getElem hlt']
+
+/-- `permute_inverse` on the generated methods: `inverse(transform(x)) = x` and `transform(inverse(y)) = y` on the data, for every
+accepted permutation array of every rank ≥ 1 and shape. -/
+theorem gen_permute_inverse (p : IArr) (hwf : p.data.length = prod p.shape) (hne : p.shape ≠ []) {s : Permute}
+    (h : Permute.init p = .ok s) (x : FArr ℝ) (hx : x.shape = p.shape) (hxl : x.data.length = p.data.length) :
+    (s.inverse (s.transform x)).data = x.data ∧ (s.transform (s.inverse x)).data = x.data := by
+  obtain ⟨hP, _, hf, hfs, hi, his, _⟩ := gen_permute_eq_model p hwf hne h x hx
+  obtain ⟨_, _, _, _, hi', _⟩ := gen_permute_eq_model p hwf hne h (s.transform x) hfs
+  obtain ⟨_, _, hf', _⟩ := gen_permute_eq_model p hwf hne h (s.inverse x) his
+  have hl : x.data.length = (p.data.map Int.toNat).length := by simpa using hxl
+  rw [hi', hf, hf', hi]
+  exact ⟨PermModel.inv_fwd _ hP _ hl, PermModel.fwd_inv _ hP _ hl⟩
+
+/-- `permute_ctor_accepts_iff` on the generated `__init__`: accepted exactly for the permutations of `0 … size−1` (flattened), any
+rank / shape; the only exception it can raise is `eqx.error_if`'s. -/
+theorem gen_permute_ctor_accepts_iff (p : IArr) :
+    (∃ s, Permute.init p = .ok s) ↔ p.data.Perm ((List.range p.data.length).map Int.ofNat) := by
+  rw [PermGenPf.gen_init_accepts_iff, ParamsPf.permuteRejects_iff]
+
+/-- non-vacuity: a 2 × 2 permutation array is accepted and inverted; a repeated entry is rejected -/
+theorem gen_permute_instance :
+    (∃ s, Permute.init ⟨[2, 2], [2, 0, 3, 1]⟩ = .ok s ∧
+      (s.inverse (s.transform ⟨[2, 2], [10, 20, 30, (40 : ℝ)]⟩)).data = [10, 20, 30, 40]) ∧
+    ¬ (∃ s, Permute.init ⟨[2, 2], [2, 0, 2, 1]⟩ = .ok s) := by
+  refine ⟨?_, fun h => absurd ((gen_permute_ctor_accepts_iff _).mp h) (by decide)⟩
+  obtain ⟨s, hs⟩ := (gen_permute_ctor_accepts_iff ⟨[2, 2], [2, 0, 3, 1]⟩).mpr (by decide)
+  exact ⟨s, hs, (gen_permute_inverse _ (by decide) (by decide) hs ⟨[2, 2], [10, 20, 30, 40]⟩ rfl rfl).1⟩
+
+end PermGen
 
 end C07
